@@ -1,0 +1,122 @@
+//go:build verif
+
+package cluster
+
+// Contracts for the verification machinery in /verif (build tag "verif").
+//
+// Abstract lease cell of the Redis-based election (one key per source shard):
+//   live, holder, exp   the key exists / its value / its expiry instant (store clock `now`)
+// The two Lua scripts are extracted from the Go functions at every run and executed
+// symbolically over this cell (see /verif/gvc/lua.go); `value`/`ttl_n` are the script's
+// locals bound to ARGV[1] (string view) and ARGV[2] (numeric view).
+
+//@ pred unexpiredAt(live, exp, now): live && now < exp
+//@ pred campaignPost(live, holder, exp, now, id, ttl, ret, live2, holder2, exp2): (ret == 1 <==> (!unexpiredAt(live, exp, now) || holder == id)) && (ret == 1 || ret == 0) && (ret == 1 ==> live2 && holder2 == id && exp2 == now + ttl) && (ret == 0 ==> live2 == live && holder2 == holder && exp2 == exp)
+//@ pred resignPost(live, holder, exp, now, id, ret, live2, holder2, exp2): (ret == 1 || ret == 0) && (unexpiredAt(live, exp, now) && holder == id ==> !live2) && (unexpiredAt(live, exp, now) && holder != id ==> ret == 0 && live2 == live && holder2 == holder && exp2 == exp) && (!unexpiredAt(live, exp, now) ==> !unexpiredAt(live2, exp2, now))
+
+//@ lua redisElection.Campaign
+//@   properties C15
+//@   ensures grant_only_to_holder_or_free: campaignPost(live, holder, exp, now, value, ttl_n, ret, live2, holder2, exp2)
+
+//@ lua redisElection.Resign
+//@   properties C15
+//@   ensures releases_only_own_lease: resignPost(live, holder, exp, now, value, ret, live2, holder2, exp2)
+
+// ---- mutual exclusion: at most one instance is told leader within an unexpired lease ----
+// believed(i) = the instant until which instance i may believe it is leader = its last
+// successful campaign/renewal + ttl (`now`, i.e. already lapsed, after it resigned or was told otherwise).
+// Invariant I: believed(i) > now ==> the cell is unexpired, held by i, and exp >= believed(i).
+// Two distinct instances cannot both satisfy the premise because the holder is unique.
+
+//@ pred leaseInv(live, holder, exp, now, i, bi): bi > now ==> (live && now < exp && holder == i && exp >= bi)
+
+//@ lemma lease_mutual_exclusion
+//@   arith int
+//@   properties C15
+//@   ensures two_leaders_impossible: forall live bool, holder string, exp mathint, now mathint, i string, j string, bi mathint, bj mathint :: i != j && leaseInv(live, holder, exp, now, i, bi) && leaseInv(live, holder, exp, now, j, bj) ==> !(bi > now && bj > now)
+//@   ensures campaign_preserves_winner: forall live bool, holder string, exp mathint, now mathint, i string, bi mathint, ttl mathint, ret mathint, live2 bool, holder2 string, exp2 mathint :: ttl > 0 && leaseInv(live, holder, exp, now, i, bi) && campaignPost(live, holder, exp, now, i, ttl, ret, live2, holder2, exp2) ==> leaseInv(live2, holder2, exp2, now, i, ite(ret == 1, now + ttl, now))
+//@   ensures campaign_preserves_others: forall live bool, holder string, exp mathint, now mathint, i string, j string, bj mathint, ttl mathint, ret mathint, live2 bool, holder2 string, exp2 mathint :: i != j && ttl > 0 && leaseInv(live, holder, exp, now, j, bj) && campaignPost(live, holder, exp, now, i, ttl, ret, live2, holder2, exp2) ==> leaseInv(live2, holder2, exp2, now, j, bj)
+//@   ensures resign_preserves_others: forall live bool, holder string, exp mathint, now mathint, i string, j string, bj mathint, ret mathint, live2 bool, holder2 string, exp2 mathint :: i != j && leaseInv(live, holder, exp, now, j, bj) && resignPost(live, holder, exp, now, i, ret, live2, holder2, exp2) ==> leaseInv(live2, holder2, exp2, now, j, bj)
+//@   ensures resign_releases_own: forall live bool, holder string, exp mathint, now mathint, i string, ret mathint, live2 bool, holder2 string, exp2 mathint :: resignPost(live, holder, exp, now, i, ret, live2, holder2, exp2) ==> leaseInv(live2, holder2, exp2, now, i, now)
+//@   ensures time_preserves: forall live bool, holder string, exp mathint, now mathint, now2 mathint, i string, bi mathint :: now2 >= now && leaseInv(live, holder, exp, now, i, bi) ==> leaseInv(live, holder, exp, now2, i, bi)
+//@   ensures lapse_bound: forall live bool, holder string, exp mathint, now mathint, i string, bi mathint, ttl mathint, t0 mathint :: bi == t0 + ttl && now >= t0 + ttl ==> !(bi > now)
+
+// ---- Go wrappers: exactly one atomic request (the eval of the script), result mapping ----
+// Ghost request log of the lease store client (abstract target): every Do is one request.
+
+func SpecReplyInt(reply interface{}) int { panic("abstract spec function") }
+
+//@ spec SpecReplyInt abstract
+
+//@ func client.Redis.Do(self, cmd, args) (reply, err)
+//@   trusted abstract lease store: each call is one request, recorded in the ghost log
+//@   modifies reqs, lastCmd, lastNArgs, lastA1, lastA2, lastA3, lastA4, lastReply
+//@   ensures logged: reqs == old(reqs) + 1 && lastCmd == cmd && lastNArgs == len(args) && lastReply == reply
+//@   ensures a1: len(args) > 1 ==> lastA1 == args[1]
+//@   ensures a2: len(args) > 2 ==> lastA2 == args[2]
+//@   ensures a3: len(args) > 3 ==> lastA3 == args[3]
+//@   ensures a4: len(args) > 4 ==> lastA4 == args[4]
+
+//@ func errors.New(text) (err)
+//@   trusted library contract
+//@   ensures nonnil: err != nil
+
+// Package-level error values are assigned once by the package initialiser.
+//@ axiom errs_nonnil: ErrNoLeader != nil && ErrNotLeader != nil
+
+//@ func common.Int(reply, err) (n, e2)
+//@   trusted abstract reply decoding: SpecReplyInt(reply) is the integer a reply denotes
+//@   ensures err_passes: err != nil ==> e2 != nil
+//@   ensures value: e2 == nil ==> n == SpecReplyInt(reply)
+
+//@ func redisElection.Campaign
+//@   arith int
+//@   properties C15
+//@   ghost var reqs mathint
+//@   ghost var lastCmd string
+//@   ghost var lastNArgs mathint
+//@   ghost var lastA1 dyn
+//@   ghost var lastA2 dyn
+//@   ghost var lastA3 dyn
+//@   ghost var lastA4 dyn
+//@   ghost var lastReply dyn
+//@   requires nonnil: e != nil && e.cli != nil
+//@   modifies reqs, lastCmd, lastNArgs, lastA1, lastA2, lastA3, lastA4, lastReply
+//@   ensures one_atomic_request: reqs == old(reqs) + 1 && lastCmd == "eval" && lastNArgs == 5
+//@   ensures one_key: len(asbytes(lastA1)) == 1 && asbytes(lastA1)[0] == '1'
+//@   ensures script_args: lastA2 == dyn(e.key) && lastA3 == dyn(e.id) && lastA4 == dyn(e.ttl)
+//@   ensures leader_iff_granted: (result0 == RoleLeader) <==> (result1 == nil && SpecReplyInt(lastReply) == 1)
+//@   ensures error_is_not_leader: result1 != nil ==> result0 == RoleCandidate
+
+//@ func redisElection.Renew
+//@   arith int
+//@   properties C15
+//@   ghost var reqs mathint
+//@   ghost var lastCmd string
+//@   ghost var lastNArgs mathint
+//@   ghost var lastA1 dyn
+//@   ghost var lastA2 dyn
+//@   ghost var lastA3 dyn
+//@   ghost var lastA4 dyn
+//@   ghost var lastReply dyn
+//@   requires nonnil: e != nil && e.cli != nil
+//@   modifies reqs, lastCmd, lastNArgs, lastA1, lastA2, lastA3, lastA4, lastReply
+//@   ensures one_atomic_request: reqs == old(reqs) + 1 && lastCmd == "eval"
+//@   ensures success_only_if_granted: result == nil ==> SpecReplyInt(lastReply) == 1
+
+//@ func redisElection.Resign
+//@   arith int
+//@   properties C15
+//@   ghost var reqs mathint
+//@   ghost var lastCmd string
+//@   ghost var lastNArgs mathint
+//@   ghost var lastA1 dyn
+//@   ghost var lastA2 dyn
+//@   ghost var lastA3 dyn
+//@   ghost var lastA4 dyn
+//@   ghost var lastReply dyn
+//@   requires nonnil: e != nil && e.cli != nil
+//@   modifies reqs, lastCmd, lastNArgs, lastA1, lastA2, lastA3, lastA4, lastReply
+//@   ensures one_atomic_request: reqs == old(reqs) + 1 && lastCmd == "eval" && lastNArgs == 5
+//@   ensures one_key: len(asbytes(lastA1)) == 1 && asbytes(lastA1)[0] == '1'
+//@   ensures script_args: lastA2 == dyn(e.key) && lastA3 == dyn(e.id)
